@@ -50,6 +50,38 @@ def edit_cases():
             b8 = copy.deepcopy(base)
             b8["links"] = list(links) + [[0, 2, "FS"]]
             out.append((base, b8, "add-link"))
+    # re-staffing between two runs
+    full3 = {"T0": 1.0, "T1": 1.0, "T2": 1.0}
+    mw = {"tasks": [{"name": "T0", "work": 4.0}, {"name": "T1", "work": 1.0}, {"name": "T2", "work": 1.0}], "links": [],
+          "teams": [{"name": "TM0", "targets": [0], "workers": [{"name": "W0", "skills": dict(full3), "cost": 1.0}]},
+                    {"name": "TM1", "targets": [1, 2], "workers": [{"name": "W1", "skills": dict(full3), "cost": 2.0}, {"name": "W2", "skills": dict(full3), "cost": 3.0}]}]}
+    mw2 = copy.deepcopy(mw)
+    mw2["teams"][0]["workers"].append(mw2["teams"][1]["workers"].pop(0))
+    out.append((mw, mw2, "move-worker"))  # the moved worker's former team soon runs out of work while his new team's long task goes on
+    rs = {"tasks": [{"name": "T0", "work": 2.0}, {"name": "T1", "work": 1.0}, {"name": "T2", "work": 2.0}], "links": [[0, 1, "FS"]],
+          "teams": [{"name": "TM0", "targets": [0, 1], "workers": [{"name": "W0", "skills": dict(full3), "cost": 1.0}]},
+                    {"name": "TM1", "targets": [0, 1, 2], "workers": [{"name": "W1", "skills": dict(full3), "cost": 2.0}]}]}
+    rs2 = copy.deepcopy(rs)
+    rs2["teams"][1]["workers"] = [rs2["teams"][0]["workers"].pop(0)]
+    out.append((rs, rs2, "restaff"))  # W1 leaves the organization, W0 is moved from TM0 to TM1: everything is still servable (by W0 through TM1)
+    # a new task given to a component that had none (a full run lies before it)
+    at = {"tasks": [{"name": "T0", "work": 2.0}, {"name": "T1", "work": 1.0}], "links": [[0, 1, "FS"]],
+          "components": [{"name": "C0", "tasks": [0, 1]}, {"name": "CE", "tasks": []}],
+          "teams": [{"name": "TM0", "targets": [0, 1], "workers": [{"name": "W0", "skills": {"T0": 1.0, "T1": 1.0, "T2": 1.0}, "cost": 1.0}]}]}
+    at2 = copy.deepcopy(at)
+    at2["tasks"].append({"name": "T2", "work": 2.0})
+    at2["links"].append([0, 2, "FS"])
+    at2["components"][1]["tasks"] = [2]
+    at2["teams"][0]["targets"] = [0, 1, 2]
+    out.append((at, at2, "add-task"))
+    # a machine moved to another workplace
+    mf = {"tasks": [{"name": "T0", "work": 2.0, "nf": True}, {"name": "T1", "work": 5.0}], "links": [], "components": [{"name": "C0", "tasks": [0]}],
+          "workplaces": [{"name": "WP0", "cap": 1.0, "targets": [0], "facilities": [{"name": "F0", "skills": {"T0": 1.0}, "cost": 1.0, "absence": [0, 1, 2, 3, 4]}]},
+                         {"name": "WP1", "cap": 1.0, "targets": [], "facilities": [{"name": "F1", "skills": {"T0": 1.0}, "cost": 2.0}]}],
+          "teams": [{"name": "TM0", "targets": [0, 1], "workers": [{"name": "W0", "skills": {"T0": 1.0, "T1": 1.0}, "fskills": {"F0": 1.0, "F1": 1.0}, "cost": 1.0}]}]}
+    mf2 = copy.deepcopy(mf)
+    mf2["workplaces"][0]["facilities"].append(mf2["workplaces"][1]["facilities"].pop(0))
+    out.append((mf, mf2, "move-facility"))
     # a facility model: the machine's own absence list extended in place between two runs
     fb = {"tasks": [{"name": "T0", "work": 6.0, "nf": True}, {"name": "T1", "work": 2.0}], "links": [], "components": [{"name": "C0", "tasks": [0]}],
           "workplaces": [{"name": "WP0", "cap": 1.0, "targets": [0], "facilities": [{"name": "F0", "skills": {"T0": 1.0}, "cost": 2.0}]}],
@@ -96,6 +128,26 @@ def apply_edit(m, name):
         org.team_list[org.team_list.index(old)] = new
         m.teams[m.teams.index(old)] = new
         m.byname["TM0"] = new
+    elif name == "restaff":
+        w1, w0 = m.byname["W1"], m.byname["W0"]
+        m.byname["TM1"].worker_list.remove(w1)
+        m.byname["TM0"].worker_list.remove(w0)
+        m.byname["TM1"].add_worker(w0)
+    elif name == "add-task":
+        from . import spec as S
+
+        t = type(m.byname["T0"])("T2", ID="T2", default_work_amount=2.0)  # same class as the other tasks (harness-hashed or plain)
+        t._vh = 50
+        t.append_input_task(m.byname["T0"])
+        m.project.workflow.append_child_task(t)
+        m.byname["TM0"].append_targeted_task(t)
+        m.byname["CE"].append_targeted_task(t)
+        m.tasks.append(t)
+        m.byname["T2"] = t
+    elif name == "move-facility":
+        f = m.byname["F1"]
+        m.byname["WP1"].facility_list.remove(f)
+        m.byname["WP0"].add_facility(f)
     elif name == "move-worker":
         w = m.byname["W1"]
         m.byname["TM1"].worker_list.remove(w)
